@@ -46,7 +46,7 @@ E == Rec[l]
 
 DoBegin ==
     /\ E.e = "Begin"
-    /\ kind' = "shared" /\ val' = E.init /\ ver' = 1 /\ owners' = {1} /\ weaks' = {} /\ subs' = {}
+    /\ kind' = (IF E.shared = 1 THEN "shared" ELSE "unique") /\ val' = E.init /\ ver' = 1 /\ owners' = {1} /\ weaks' = {} /\ subs' = {}
     /\ obs' = [s \in SubIds |-> 0] /\ unseen' = [s \in SubIds |-> FALSE]
     /\ armed' = [s \in SubIds |-> FALSE]
     /\ registered' = {} /\ woken' = {} /\ owed' = {}
